@@ -544,7 +544,7 @@ root:
 		time.Sleep(time.Millisecond * 10)
 
 		d.eventProcessMutex.Lock()
-		offset := d.semitone + d.octave*12
+		offset := d.transposition()
 
 		for i := 0; i < len(ledArray); i++ {
 			ledArray[i] = d.config.OpenRGB.Colors.Unavailable
